@@ -468,8 +468,12 @@ def run_search(case: dict, trace: bool = False) -> dict:
 
         for i, step in enumerate(case['steps']):
             ctx.step_index = i
-            if cl.conn.done or any(v['property'] == 'C13'
-                                   for v in ctx.violations):
+            if cl.conn.done or any(
+                    v['property'] == 'C13'
+                    and v['sig'].get('key') != 'header-normalised'
+                    for v in ctx.violations):
+                break
+            if sum(1 for v in ctx.violations if v['property'] == 'C13') > 3:
                 break
             q = case['queries'][step['q']]
             tree, uid = q['tree'], q['uid']
